@@ -677,17 +677,18 @@ func (c *RemoteClient) GetOutputs(ctx context.Context,
 		}
 
 		if int(outpoint.Index) >= len(tx.TxOut) {
-			return nil, errors.Wrap(err, "invalid index")
+			return nil, fmt.Errorf("invalid index : %d >= %d", outpoint.Index, len(tx.TxOut))
 		}
 		outputs[i] = tx.TxOut[outpoint.Index]
 
 		// Check if other outpoints have the same txid.
-		for j := range outpoints[i+1:] {
-			if outpoints[j].Hash.Equal(&outpoint.Hash) {
-				if int(outpoint.Index) >= len(tx.TxOut) {
-					return nil, errors.Wrap(err, "invalid index")
+		for j := i + 1; j < len(outpoints); j++ {
+			if outputs[j] == nil && outpoints[j].Hash.Equal(&outpoint.Hash) {
+				if int(outpoints[j].Index) >= len(tx.TxOut) {
+					return nil, fmt.Errorf("invalid index : %d >= %d", outpoints[j].Index,
+						len(tx.TxOut))
 				}
-				outputs[j] = tx.TxOut[outpoint.Index]
+				outputs[j] = tx.TxOut[outpoints[j].Index]
 			}
 		}
 	}
